@@ -53,6 +53,7 @@ type Case struct {
 	Tags    []string          `json:"tags,omitempty"`
 	Ext     map[string]string `json:"ext,omitempty"`
 	Rows    []Row             `json:"rows,omitempty"`
+	Undef   bool              `json:"undefined_key,omitempty"` // a key derived from a defined one that the tables do not define
 }
 
 func (c Case) key() string {
@@ -377,6 +378,18 @@ func enumerate(c *core.Ctx) []Case {
 				})
 				c.Count("rate-keys", 1)
 				c.Count(fmt.Sprintf("rate-rows=%d", len(rate.Values)), 1)
+				// keys that merely contain a defined key (as the tail or head of a component, or next
+				// to an unknown component that is not the defined key) are not defined: no rate applies
+				defined := map[string]bool{}
+				for _, r2 := range cat.Rates {
+					defined[string(r2.Key)] = true
+				}
+				for _, dk := range []string{"non-" + string(rate.Key), "zz-" + string(rate.Key), string(rate.Key) + "-zz", "x" + string(rate.Key), "foo+not-" + string(rate.Key)} {
+					if !defined[dk] {
+						c.Count("derived-undefined-keys", 1)
+						out = append(out, Case{Path: "invoice-issue", Country: string(r.Country), Cat: string(cat.Code), Rate: dk, Date: today, Undef: true})
+					}
+				}
 				for _, tv := range tagVars {
 					for _, ev := range extVars {
 						c.Count("filters", 1)
@@ -560,9 +573,12 @@ func prepareValue(c *core.Ctx, cs Case) *evaluated {
 
 func prepareInvoice(c *core.Ctx, cs Case) *evaluated {
 	_, _, rate := findRate(cs)
-	if rate == nil {
+	if rate == nil && !cs.Undef {
 		c.Count("skipped:rate-not-registered", 1)
 		return nil
+	}
+	if rate == nil {
+		rate = &tax.RateDef{}
 	}
 	host, override := cs.Country, ""
 	issue := cs.Date
